@@ -143,6 +143,37 @@ func selfCheck() error {
 		}
 	}
 
+	// the spelling dimension must not be vacuous: each tag gives a different
+	// string on the Windows type and the plain portable path on the Linux type
+	for _, kind := range []string{"MemFS", "OrefaFS"} {
+		l, _, err := newSide(kind, false)
+		if err != nil {
+			return err
+		}
+
+		w, _, err := newSide(kind, true)
+		if err != nil {
+			return err
+		}
+
+		for _, c := range [][3]string{
+			{"/a/b", `C:\a\b`, "/a/b"}, {"f:/a/b", "C:/a/b", "/a/b"}, {"r:/a/b", `\a\b`, "/a/b"}, {"rf:/a/b", "/a/b", "/a/b"},
+			{"r:/", `\`, "/"}, {"rf:/", "/", "/"}, {"f:/", "C:/", "/"}, {"a/b", `a\b`, "a/b"}, {"f:a/b", "a/b", "a/b"}, {"rf:a", "a", "a"},
+		} {
+			if gw, gl := w.path(c[0]), l.path(c[0]); gw != c[1] || gl != c[2] {
+				return fmt.Errorf("selfcheck %s: spelling of %q = %q (Windows-typed, want %q), %q (Linux-typed, want %q)", kind, c[0], gw, c[1], gl, c[2])
+			}
+		}
+
+		if got := spellingOf(fsx.Call{Op: "Rename", A: "rf:/a", B: "b"}); got != "A=rf,B=" {
+			return fmt.Errorf("selfcheck: spellingOf = %q", got)
+		}
+
+		if got := plainCall(fsx.Call{Op: "Rename", A: "rf:/a", B: "f:a/b"}); got.A != "/a" || got.B != "a/b" {
+			return fmt.Errorf("selfcheck: plainCall = %v", got)
+		}
+	}
+
 	if got := shapeOf("/a*/b/[a"); got != "/W/L/B" {
 		return fmt.Errorf("selfcheck: shapeOf = %q", got)
 	}
